@@ -81,7 +81,7 @@ func (c18) Enumerate(tier string, seed int64, yield func(string, core.Case) bool
 	pbVias := []string{"pbstring", "solver-fresh", "solver-solved", "clause-pbstring", "pbstring-after-solve"}
 	if !enumConstraintSets(tier, func(fam string, p Prob) bool {
 		switch fam {
-		case "card1", "card1u", "pb1", "dec", "card2", "pb1u":
+		case "card1", "card1u", "pb1", "dec", "card2", "pb1u", "wu4":
 		default:
 			return true
 		}
@@ -89,7 +89,7 @@ func (c18) Enumerate(tier string, seed int64, yield func(string, core.Case) bool
 			return true
 		}
 		cs := costs
-		if fam == "card2" || fam == "pb1u" || fam == "dec" {
+		if fam == "card2" || fam == "pb1u" || fam == "dec" || fam == "wu4" {
 			cs = costs[:1]
 			if thorough {
 				cs = costs[:4]
